@@ -859,3 +859,81 @@ def _dest_case(form, ph, how, n):
                     'dst': expr})
     return {'conf': {'home': n % 3, 'act_home': (n // 3) % 3, 'inv': (n // 5) % 3, 'cinc': (n // 7) % 2},
             'act': {'k': 'plain'}, 'ops': ops, 'irr': 'matrix'}
+
+
+# ---- enumerated matrix of the reading arguments ------------------------------------------------------------------
+READ_SITES = ['copy_src', 'cd', 'contents_of', 'dir_contents_of', 'existing', 'exe', 'exists', 'contents',
+              'dir-contents', 'act_exe', 'act_arg']
+
+
+def read_matrix(tier):
+    """every reading argument x phase x (no option | every option | symbol of every base relativity, referenced by
+    -rel SYM and by @[SYM]@/x, directly and through one more definition)"""
+    n = 0
+    for site in READ_SITES:
+        phases = ['act'] if site.startswith('act_') else (['assert'] if site in ref.ASSERT_ONLY else PHASES)
+        for ph in phases:
+            hows = [('default',)] + [('opt', k) for k in KINDS + ['here']]
+            for k in KINDS + ['abs', 'here']:
+                for depth in (1, 2):
+                    for use in ('rel', 'lead'):
+                        hows.append(('sym', k, depth, use))
+            for how in hows:
+                if site == 'cd' and how[0] == 'sym' and how[1] in ('abs', 'here'):
+                    continue  # `cd` stays inside the sandbox (domain restriction)
+                if site == 'dir_contents_of' and how[0] == 'default':
+                    continue  # default relativity undocumented
+                yield _read_case(site, ph, how, n)
+                n += 1
+
+
+def _read_case(site, ph, how, n):
+    real_site = 'existing' if site == 'act_arg' else site
+    leaf = _leaf_for(real_site, 0)
+    ops = []
+    def_ph = 'setup' if (ph == 'act' or n % 2) else ph
+    if how[0] == 'default':
+        expr = {'rel': None, 'lead': None, 'name': [['l', leaf]], 'q': 0}
+    elif how[0] == 'opt':
+        expr = {'rel': how[1], 'lead': None, 'name': [['l', leaf]], 'q': n % 3}
+    else:
+        _, k, depth, use = how
+        if k == 'abs':
+            e = {'rel': None, 'lead': None,
+                 'name': [['l', ['{HOME}/cs', '{ROOT}/absarea', '{HOME}/hd2', '{HOME}/cs/inc/deep'][n % 4]]], 'q': 0}
+        else:
+            e = {'rel': k, 'lead': None, 'name': [['l', '.']], 'q': 0}
+        ops.append({'k': 'def', 'ph': def_ph, 'name': 'P1', 'expr': e, 'inc': [1, 0, 2, 0][n % 4]})
+        sym = 'P1'
+        if depth == 2:
+            # one more definition: the leaf's directory goes into the chain where the leaf has one
+            comp = 'd1' if leaf == 'f1' else None
+            if comp:
+                leaf = 'f2'
+                e = [{'rel': 'sym:P1', 'lead': None, 'name': [['l', comp]], 'q': 0},
+                     {'rel': None, 'lead': 'P1', 'name': [['l', '/' + comp]], 'q': 0}][n % 2]
+            else:
+                e = {'rel': None, 'lead': 'P1', 'name': [], 'q': 0}
+            ops.append({'k': 'def', 'ph': def_ph, 'name': 'P2', 'expr': e, 'inc': 0})
+            sym = 'P2'
+        if use == 'rel':
+            expr = {'rel': 'sym:' + sym, 'lead': None, 'name': [['l', leaf]], 'q': 0}
+        else:
+            expr = {'rel': None, 'lead': sym, 'name': [['l', '/' + leaf]], 'q': n % 2}
+    act = {'k': 'plain'}
+    if site == 'act_exe':
+        act = {'k': 'exe', 'expr': expr}
+    elif site == 'act_arg':
+        act = {'k': 'arg', 'expr': expr}
+    elif site == 'copy_src':
+        ops.append({'k': 'copy', 'ph': ph, 'src': expr,
+                    'dst': {'rel': 'tmp', 'lead': None, 'name': [['l', 'o/c']], 'q': 0}})
+    elif site == 'cd':
+        ops.append({'k': 'cd', 'ph': ph, 'expr': expr})
+    else:
+        op = {'k': 'read', 'ph': ph, 'site': site, 'expr': expr}
+        if site == 'existing':
+            op['etype'] = ['p', 'f'][n % 2]
+        ops.append(op)
+    return {'conf': {'home': n % 3, 'act_home': (n // 3) % 3, 'inv': (n // 5) % 3, 'cinc': (n // 7) % 2},
+            'act': act, 'ops': ops, 'irr': 'read-matrix'}
